@@ -374,6 +374,20 @@ fn main() {
                     mis.is_some() == v.as_bool().unwrap()
                 }
                 // every reported occurrence sits on an opening quote of the input, followed by the literal's text
+                // closed world of hook names: every `_ddiast.NAME` in the output is a configured replacement name
+                "unconfigured_hook_referenced" => {
+                    let allowed: Vec<String> = methods.iter().map(|m| m.dst.clone()).collect();
+                    let mut bad = None;
+                    let mut rest = code.as_str();
+                    while let Some(i) = rest.find("_ddiast.") {
+                        let tail = &rest[i + 8..];
+                        let name: String = tail.chars().take_while(|c| c.is_ascii_alphanumeric() || *c == '_' || *c == '$').collect();
+                        if !allowed.contains(&name) && bad.is_none() { bad = Some(name.clone()); }
+                        rest = &tail[name.len()..];
+                    }
+                    println!("--- unconfigured hook name referenced: {:?}", bad);
+                    bad.is_some() == v.as_bool().unwrap()
+                }
                 "literal_not_at_reported_position" => {
                     // columns are counted in UTF-16 code units (what JavaScript tooling uses); an astral character is two units,
                     // represented here by two placeholder chars so that indices are unit indices
